@@ -299,6 +299,14 @@ class RepeatedNodeWrapper(MutableSequence[_M]):
         self._repeated.auto_claim_comments()
 
 
+def drop_views_of(instance: base.RawTreeModel, wrapper: Optional[RepeatedNodeWrapper[Any]]) -> None:
+    """Forgets the cached views built on wrapper, so that they are rebuilt on the wrapper that replaces it."""
+    if wrapper is not None:
+        for attr, view in list(instance.__dict__.items()):
+            if getattr(view, '_raw_wrapper', None) is wrapper:
+                del instance.__dict__[attr]
+
+
 class repeated_node_property(base_rw_property[RepeatedNodeWrapper[_M], base.RawTreeModel]):
     def __init__(self, inner_field: repeated_field[_M]) -> None:
         super().__init__()
@@ -319,6 +327,7 @@ class repeated_node_property(base_rw_property[RepeatedNodeWrapper[_M], base.RawT
         repeated = self._inner_field.__get__(instance)
         replace_node(repeated, value.repeated)
         self._inner_field.__set__(instance, value.repeated)
+        drop_views_of(instance, instance.__dict__.get(self._attr))
         instance.__dict__[self._attr] = value
 
 
